@@ -188,6 +188,17 @@ class NumpyBackendProvider(BackendProvider):
 
         return None
 
+    def _nested_shape(self, x):
+        """Shape of a rectangular array or list; () for atoms and for ragged lists."""
+        if isinstance(x, self._np.ndarray):
+            return x.shape
+        if isinstance(x, list):
+            try:
+                return self._np.shape(x)
+            except ValueError:
+                return ()
+        return ()
+
     def kg_asarray(self, a):
         """Convert input to numpy array, handling strings and jagged/nested data."""
         if isinstance(a, str):
@@ -197,6 +208,14 @@ class NumpyBackendProvider(BackendProvider):
             if arr.dtype.kind not in ['O', 'i', 'f']:
                 raise ValueError
         except (NumpyVisibleDeprecationWarning, ValueError):
+            shapes = [self._nested_shape(x) for x in a]
+            if any(len(sh) > 1 for sh in shapes) and len(set(shapes)) > 1:
+                # elements nested to different depths ([[1] [[1]]]): asarray(dtype=object) would broadcast the
+                # deeper ones into a common 2-D shape and silently drop a level of nesting
+                arr = self._np.empty(len(a), dtype=object)
+                for i, x in enumerate(a):
+                    arr[i] = self.kg_asarray(x) if isinstance(x, list) else x
+                return arr
             try:
                 arr = self._np.asarray(a, dtype=object)
             except ValueError:
